@@ -540,6 +540,9 @@ func (rn *runner) applied() int {
 func (rn *runner) startPoint() (syncer.StartPoint, *syncer.RedisOutput) {
 	ro := rn.newOutput()
 	sp, err := ro.StartPoint(context.Background(), []string{runID})
+	if hx.PortExhausted(err) {
+		hx.Fatal("scenario %d: %v", rn.sc.id, err)
+	}
 	rn.waitNoConns()
 	rn.flushRaw()
 	if err != nil {
@@ -615,6 +618,9 @@ func (rn *runner) run(crashAfter int) (died bool, cont bool) {
 		case <-time.After(20 * time.Second):
 			hx.Fatal("scenario %d: Send did not return", sc.id)
 		}
+	}
+	if hx.PortExhausted(sendErr) {
+		hx.Fatal("scenario %d: %v", sc.id, sendErr)
 	}
 	died = rn.tg.crashed()
 	if died {
